@@ -76,15 +76,14 @@ pub fn run(rep: &mut Report, thorough: bool) {
                 }
             }
             // ---- every boundary between two destination calls
-            let snaps = view.snapshots();
             let log = view.log();
             let mut writes_done = 0;
-            for (j, s) in snaps.iter().enumerate() {
+            view.for_each_snapshot(|j, s| {
                 if matches!(log.get(j), Some(crate::dest::Call::Write { .. })) {
                     writes_done += 1;
                 }
                 if writes_done == 0 {
-                    continue;
+                    return true;
                 }
                 let content = if s.len() as u64 >= start { &s[start as usize..] } else { &s[0..0] };
                 let errs = judge_prefix(content);
@@ -101,7 +100,52 @@ pub fn run(rep: &mut Report, thorough: bool) {
                         &format!("C10 crash point leaves an inconsistent prefix ({})", kinds.join(",")),
                         json!({"case": case, "after_call": j, "call": format!("{:?}", log.get(j)), "prefix_len": content.len(), "messages": errs.iter().map(|e| &e.1).take(3).collect::<Vec<_>>()}),
                     );
-                    break; // one witness per dump is enough
+                    return false; // one witness per dump is enough
+                }
+                true
+            });
+            // ---- a destination that accepts only part of each write: every boundary between its
+            // write calls, judged on the clause that does not depend on how the first flush is
+            // split: once header and directory are there, no published entry may refer to bytes
+            // that have not arrived
+            if k % 2 == 0 {
+                let big: u64 = o.app_memory.iter().map(|(_, l)| *l).sum();
+                let chunk = if big > 300_000 { 400_000 } else { *rng.pick(&[1000usize, 4096, 60_000]) };
+                let mut d = Dest::new(Vec::new(), start, Mode::ShortLarge(chunk), rng.next());
+                d.record_snapshots();
+                let v3 = d.clone();
+                sc.target.settle();
+                let out3 = {
+                    let _g = dump::DUMP_LOCK.lock().unwrap_or_else(|e| e.into_inner());
+                    dump::dump_into(&o, &mut d)
+                };
+                if matches!(out3, Outcome::Ok(_)) {
+                    v3.for_each_snapshot(|j, s| {
+                        let content = if s.len() as u64 >= start { &s[start as usize..] } else { &s[0..0] };
+                        if content.len() < 32 + 18 * 12 {
+                            return true;
+                        }
+                        let errs = judge_prefix(content);
+                        rep.count("short_write_states_checked", 1);
+                        if !errs.is_empty() {
+                            let mut kinds: Vec<String> = errs.iter().map(|e| e.0.clone()).collect();
+                            kinds.sort();
+                            kinds.dedup();
+                            rep.violation(
+                                &format!("C10 crash point leaves an inconsistent prefix on a short-writing destination ({})", kinds.join(",")),
+                                json!({"case": case, "after_call": j, "accepts_at_most": chunk, "prefix_len": content.len(), "messages": errs.iter().map(|e| &e.1).take(3).collect::<Vec<_>>()}),
+                            );
+                            return false;
+                        }
+                        true
+                    });
+                    // and the finished destination holds the whole image
+                    if let Outcome::Ok(img) = &out3 {
+                        let data = v3.data();
+                        if data.get(start as usize..start as usize + img.len()) != Some(&img[..]) {
+                            rep.violation("C10 finished dump on a short-writing destination is incomplete", json!({"case": case, "accepts_at_most": chunk, "image_len": img.len(), "destination_len": data.len()}));
+                        }
+                    }
                 }
             }
             // ---- an I/O error at every call
